@@ -1,6 +1,7 @@
 package main
 
 import (
+	"math/rand"
 	"reflect"
 	"sort"
 
@@ -186,7 +187,20 @@ func exploreUnknownMethods() (called []string) {
 	return called
 }
 
-func exploreCall(m, recv reflect.Value, variant int) {
+// exploreValue calls every method of v that is outside the pinned API (variant 0 arguments) and returns what they returned.
+func exploreValue(v any) (results []reflect.Value) {
+	rv := reflect.ValueOf(v)
+	t := rv.Type()
+	for i := 0; i < t.NumMethod(); i++ {
+		if knownMethods[t.String()+"."+t.Method(i).Name] {
+			continue
+		}
+		results = append(results, exploreCall(rv.Method(i), rv, 0)...)
+	}
+	return results
+}
+
+func exploreCall(m, recv reflect.Value, variant int) (results []reflect.Value) {
 	defer func() { _ = recover() }()
 	mt := m.Type()
 	if mt.IsVariadic() {
@@ -221,6 +235,12 @@ func exploreCall(m, recv reflect.Value, variant int) {
 			if reflect.TypeOf(strs[variant]).Implements(pt) || pt.NumMethod() == 0 {
 				a.Set(reflect.ValueOf(strs[variant]))
 			}
+		case reflect.Ptr:
+			if pt == reflect.TypeOf((*rand.Rand)(nil)) { // a reproducibly seeded generator, as property-test drivers pass
+				a.Set(reflect.ValueOf(rand.New(rand.NewSource(42))))
+			} else if recv.Type().AssignableTo(pt) {
+				a.Set(recv)
+			}
 		default:
 			if recv.Type().AssignableTo(pt) {
 				a.Set(recv)
@@ -228,7 +248,8 @@ func exploreCall(m, recv reflect.Value, variant int) {
 		}
 		args[k] = a
 	}
-	for _, r := range m.Call(args) {
+	results = m.Call(args)
+	for _, r := range results {
 		switch r.Kind() {
 		case reflect.Slice: // the caller owns what it is handed: reorder it, clear it
 			for i, j := 0, r.Len()-1; i < j; i, j = i+1, j-1 {
@@ -248,4 +269,5 @@ func exploreCall(m, recv reflect.Value, variant int) {
 			}
 		}
 	}
+	return results
 }
